@@ -2,6 +2,8 @@
    the real handler code on the model's file-system state and prints the control files after every event. -/
 import Csvq.Model.Lock
 import Csvq.Gen.FsProto
+import Csvq.Model.Retry
+import Csvq.Gen.RetryLoop
 namespace Csvq.Drive
 open Csvq.Lock
 
@@ -38,6 +40,80 @@ partial def search (fl : Flags) (n : Nat) : Option XState :=
         go (rest ++ fresh.eraseDups) (s :: seen) fuel
   go [init] [] 20000
 
+/-! ### search over the REGENERATED retry loop: an environment and an instant at which the context ends such that
+    CreateControlFileContext returns an error and leaves a control file, or returns a file it does not own -/
+
+open Csvq.Retry in
+def cfName : CF → String
+  | .lock => "Lock" | .rlock => "RLock" | .temp => "Temporary"
+
+open Csvq.Retry in
+def mineShow (m : Mine) : String :=
+  let l := (if m.lock then [".lock"] else []) ++ (if m.rlock then [".rlock"] else []) ++ (if m.temp then [".temp"] else [])
+  if l.isEmpty then "nothing" else String.intercalate "+" l
+
+open Csvq.Retry in
+def resShow : TRes → String
+  | .ok f => s!"ok({cfName f})" | .soft => "LockError" | .hard => "other-error"
+
+open Csvq.Retry in
+/-- the same walk as `runStmts`, with a line per statement (display only; the verdict comes from `run`) -/
+def traceStmts (env : Env) (T : Nat) (tr : List TStmt) : List RStmt → LSt → List String → List String × Flow
+  | [], s, log => (log, .cont s)
+  | .attempt :: rest, s, log =>
+    let o := runTry env tr s.t s.mine []
+    traceStmts env T tr rest ⟨o.t, o.mine, some o.res⟩
+      (log ++ [s!"instants {s.t}..{o.t - 1}: attempt -> {resShow o.res}, own control files now: {mineShow o.mine}"])
+  | .ifRet c r :: rest, s, log =>
+    let cs := match c with | .ctxDone => "ctx.Err() != nil" | .attemptOk => "err == nil" | .attemptHard => "err is not a LockError"
+    let rs := match r with | .fileNil => "return f, nil" | .nilErr => "return nil, <error>"
+    if evalCond T s c then (log ++ [s!"instant {s.t}: {cs}? yes -> {rs}"], .ret r { s with t := s.t + 1 })
+    else traceStmts env T tr rest { s with t := s.t + 1 } (log ++ [s!"instant {s.t}: {cs}? no"])
+  | .selectCtxOrTimer r :: rest, s, log =>
+    let d := 1 + (env s.t).delay
+    let rs := match r with | .fileNil => "return f, nil" | .nilErr => "return nil, <error>"
+    if T ≤ s.t + d then (log ++ [s!"instant {s.t}: select: ctx.Done() -> {rs}"], .ret r { s with t := s.t + 1 })
+    else traceStmts env T tr rest { s with t := s.t + d } (log ++ [s!"instant {s.t}: select: timer after {d}"])
+
+open Csvq.Retry in
+def traceRun (env : Env) (T : Nat) (tr : List TStmt) (lp : Loop) (fuel : Nat) : List String :=
+  let rec loop (n : Nat) (s : LSt) (log : List String) : List String :=
+    match n with
+    | 0 => log ++ ["(no return within the rounds tried)"]
+    | n + 1 =>
+      match traceStmts env T tr lp.body s log with
+      | (log', .ret _ _) => log'
+      | (log', .cont s') => loop n s' log'
+  match traceStmts env T tr lp.pre ⟨0, .none, none⟩ [] with
+  | (log, .ret _ _) => log
+  | (log, .cont s) => loop fuel s log
+
+open Csvq.Retry in
+/-- environments tried: nobody else; somebody else's `.lock` / `.rlock` during the first k instants -/
+def searchEnvs : List (String × Env) :=
+  [("no other process", fun _ => ⟨false, false, false, false, 0⟩)] ++
+  (List.range 8).map (fun k => (s!"another process holds .lock during instants 0..{k}", fun t => ⟨decide (t ≤ k), false, false, false, 0⟩)) ++
+  (List.range 8).map (fun k => (s!"another process holds an .rlock during instants 0..{k}", fun t => ⟨false, decide (t ≤ k), false, false, 0⟩))
+
+open Csvq.Retry in
+def retrySearch : String :=
+  let cands := [CF.lock, CF.rlock, CF.temp].flatMap (fun ft => searchEnvs.flatMap (fun e => (List.range 24).map (fun T => (ft, e, T))))
+  let bad := cands.find? (fun c =>
+    let (ft, e, T) := c
+    match run e.2 T (Csvq.Gen.Retry.tryOf ft) Csvq.Gen.Retry.retryLoop 40 0 with
+    | some (.nilErr, s) => s.mine != .none
+    | some (.fileNil, s) => s.mine != .only ft
+    | none => true)
+  match bad with
+  | none => s!"no-violating-schedule among {cands.length} (file type, environment, instant) combinations"
+  | some (ft, e, T) =>
+    let verdict := match run e.2 T (Csvq.Gen.Retry.tryOf ft) Csvq.Gen.Retry.retryLoop 40 0 with
+      | some (.nilErr, s) => s!"returns an ERROR and leaves {mineShow s.mine} behind, recorded nowhere"
+      | some (.fileNil, s) => s!"returns a control file while its own files are {mineShow s.mine}"
+      | none => "does not return"
+    s!"violating-schedule: CreateControlFileContext({cfName ft}); {e.1}; the context (wait timeout / cancellation) ends at instant {T}; " ++
+      String.intercalate "; " (traceRun e.2 T (Csvq.Gen.Retry.tryOf ft) Csvq.Gen.Retry.retryLoop 40) ++ s!" => {verdict}"
+
 def c09 (cmd : String) (args : List String) : String :=
   match cmd, args with
   | "trace", _roles :: evs =>
@@ -50,6 +126,19 @@ def c09 (cmd : String) (args : List String) : String :=
       | _ => acc
     let r := evs.foldl step ({ lockOwner := none, rlocks := [] }, [])
     String.intercalate "," r.2.reverse
+  | "retrysearch", _ => retrySearch
+  | "cancelat", [ft, e, T] =>
+    -- the regenerated retry loop on a free table (or one held by another process for ever), the context over from instant T on
+    let f? : Option Csvq.Retry.CF := match ft with
+      | "lock" => some .lock | "rlock" => some .rlock | "temp" => some .temp | _ => none
+    match f?, T.toNat? with
+    | some f, some T =>
+      let env : Csvq.Retry.Env := fun _ => ⟨e == "busy", false, false, false, 0⟩
+      match Csvq.Retry.run env T (Csvq.Gen.Retry.tryOf f) Csvq.Gen.Retry.retryLoop 60 0 with
+      | some (.fileNil, s) => "ok:" ++ mineShow s.mine
+      | some (.nilErr, s) => "err:" ++ mineShow s.mine
+      | none => "no-return"
+    | _, _ => "bad-op"
   | "search", [n] =>
     match n.toNat? with
     | some n =>
